@@ -20,7 +20,7 @@ EXPLANATION = (
     "(renaming, wrapping into a function; shared with C08); (R5) implicit component names are injective over (module, "
     "node, instantiation) (moving declarations into a module; shared with C09). The equality of documents over program "
     "pairs and rewrite sequences is not decidable by this family and is not claimed.")
-EXPLANATION += " Further clauses: (R6) JOIN-AGREE (shared C10.R5); (R7) VAR-UNIFORM - the eleven kind predicates treat an unresolved tag alike, so that applying a function in its own module or only in an importer cannot change the verdict. R1 also requires eval_binding to return the argument's annotations extended by those of the occurrence. R3 also requires that productions use token positions for error spans only; (R8) ROOTS - evaluation is driven by the resources alone. (R9) LATE-ANNOTATION - annotation keys are read where the value is finally consumed (five known findings)."
+EXPLANATION += " Further clauses: (R6) JOIN-AGREE (shared C10.R5); (R7) VAR-UNIFORM - the eleven kind predicates treat an unresolved tag alike, so that applying a function in its own module or only in an importer cannot change the verdict. R1 also requires eval_binding to return the argument's annotations extended by those of the occurrence. R3 also requires that productions use token positions for error spans only; (R8) ROOTS - evaluation is driven by the resources alone. (R9) LATE-ANNOTATION - annotation keys are read where the value is finally consumed (five known findings). (R10) COMMENT-LEXEME - the block-comment token is exactly /* .. */ with no */ inside (decided exhaustively on the pattern)."
 TECHNIQUE = "static analysis: def-use transparency rules on MIR, who-may-call, predicate evaluation by abstract interpretation, shared scope/naming rules"
 
 TRIVIA_EXPECTED = {'Space', 'CommentLine', 'CommentBlock'}   # frozen: the three token kinds whose patterns are whitespace / comments
@@ -311,6 +311,8 @@ def run(c, facts):
     import c10
     c.run(r7_var_uniform, facts)
     c.run(r8_roots, facts)
+    import lexrules
+    c.run(lambda c: lexrules.block_comment_exact(c, facts, 'C05.R10'))
     c.run(r9_late_annotations, facts)
     R6 = c.rule('C05.R6', 'JOIN-AGREE: a declaration moved into a module is found again: an import binds to the module that was loaded for it (shared with C10.R5)')
     c.shared(R6, c10.r5_join_agree, 'C10.R5', facts)
